@@ -102,6 +102,7 @@ fn main() {
         "C08" => checks::c08::run(&ctx),
         "C09" => checks::c09::run(&ctx),
         "C10" => checks::c10::run(&ctx),
+        "C11" => checks::c11::run(&ctx),
         _ => {
             eprintln!("unknown property {prop}");
             2
